@@ -444,6 +444,15 @@ def h_execute(spec):
                 else:
                     # a failure outside node.process after the start record (publication, non-Payload result ...)
                     spec.oblige(I, "raise/other-failure:pipeline_end-says-error-and-driver-closed", z3.And(last == end_err, closed, flushed))
+                    # one SER per node that started, whatever failed afterwards (publication of the node's result, a result that is
+                    # not a Payload): the node whose turn it was has exactly one SER, it is the last one, and it carries that node's id
+                    started_nodes = P.n - P0n
+                    spec.oblige(I, "raise/other-failure:one-SER-per-started-node", T.n == T0.n + 1 + started_nodes + 1, meta={"witness": "publication-failure"})
+                    ser_last = T.at(T.n - 2)
+                    nid_k = spec.UU(started_nodes - 1)
+                    spec.oblige(I, "raise/other-failure:the-last-SER-belongs-to-the-node-that-ran-last",
+                                z3.Implies(started_nodes >= 1, z3.Or(ser_last == rec("ser", vstr("succeeded"), nid_k, rid, pid), ser_last == rec("ser", vstr("error"), nid_k, rid, pid))),
+                                meta={"witness": "publication-failure"})
         return body
     return mk
 
